@@ -68,3 +68,108 @@ Example C06_line_example :
   render_phout true s = Ok [49;52;56;52;54;54;48;57;57;57;46;48;48;50;9;116;97;103;49;124;116;97;103;50;35;52;50;9;
                             51;51;51;51;51;51;9;48;9;48;9;48;9;48;9;48;9;48;9;48;9;49;51;9;57;57;57].
 Proof. split; vm_compute; reflexivity. Qed.
+
+(* ------------------------------------------------------------------------------------ *)
+(* (b) the bounded queue                                                                 *)
+From PV Require Import Model.Aggregator Proofs.AggregatorProofs.
+
+(* For both aggregator kinds, every queue size, every sample type and encoder, and EVERY
+   history of atomic events (Reports of any number of goroutines, receives, flushes of any
+   byte count, the cancel, Run's observation of it) that is an execution of the model, in
+   which no Report completes after the cancel and whose samples all encode: when Run has
+   returned the destination holds exactly the encodings of the accepted samples, in queue
+   order, nothing is left in the buffer or the queue, the destination is closed; the accepted
+   samples are an order-preserving sub-list of the reported ones and
+   accepted + dropped = reported; phout (Blocking): accepted = reported, nothing dropped;
+   the error is "dropped N" iff N > 0. *)
+Theorem C06_queue_complete : forall (A : Type) (enc : A -> option (list N)) (k : kind) (Q : nat) h s,
+  run A enc k Q (init A) h = Some s ->
+  reports_first A false h = true ->
+  Forall (enc_ok A enc) (reports_of A h) ->
+  ph s = Done ->
+  sink s = enc_all A enc (acc_log s) /\ buf s = [] /\ queue s = [] /\ closed s = true
+  /\ rep_log s = reports_of A h
+  /\ Subseq (acc_log s) (reports_of A h)
+  /\ N.of_nat (length (acc_log s)) + dropped s = N.of_nat (length (reports_of A h))
+  /\ (k = Blocking -> acc_log s = reports_of A h /\ dropped s = 0)
+  /\ run_error A s = (if dropped s =? 0 then None else Some (dropped s)).
+Proof. exact queue_complete. Qed.
+Print Assumptions C06_queue_complete.
+
+(* Run is never stuck after the cancel: from every state reached by such a history, still in
+   the main loop with the context cancelled, "take ctx.Done, receive |queue| times, find the
+   queue empty" is enabled step by step and ends in Done. *)
+Theorem C06_run_can_finish : forall (A : Type) (enc : A -> option (list N)) (k : kind) (Q : nat) h s,
+  run A enc k Q (init A) h = Some s -> reports_first A false h = true -> Forall (enc_ok A enc) (reports_of A h) ->
+  ph s = Running -> cancelled s = true ->
+  exists s', run A enc k Q s (finish_history A s) = Some s' /\ ph s' = Done.
+Proof. exact run_can_finish. Qed.
+Print Assumptions C06_run_can_finish.
+
+(* The ordering hypothesis is necessary: a Report completing after Run returned is neither
+   written nor counted. *)
+Theorem C06_late_report_is_lost :
+  exists h s, run N enc_demo Blocking 4 (init N) h = Some s /\ ph s = Done
+              /\ reports_first N false h = false
+              /\ sink s <> enc_all N enc_demo (rep_log s) /\ dropped s = 0.
+Proof. exact late_report_is_lost. Qed.
+Print Assumptions C06_late_report_is_lost.
+
+(* non-vacuity: three goroutines, queue of 2, a drop, periodic and partial flushes *)
+Example C06_queue_example :
+  exists s, run N enc_demo Dropping 2 (init N)
+              [Report 0 1; Report 1 2; Report 2 3; Handle; Flush 1; Report 0 4; Handle; Flush 9; Cancel; SeeCancel; Handle; Finish] = Some s
+            /\ ph s = Done /\ sink s = [1; 10; 2; 10; 4; 10] /\ dropped s = 1 /\ run_error N s = Some 1.
+Proof. eexists. split; [vm_compute; reflexivity|]. repeat split. Qed.
+
+(* ------------------------------------------------------------------------------------ *)
+(* (c) when the aggregator is cancelled, when the process exits                          *)
+From PV Require Import Model.Shutdown Proofs.ShutdownProofs Gen.Phout_bridge.
+
+(* The column bridge: the constants compiled from sample.go are 0..9 in documented order. *)
+Theorem C06_keys_bridge :
+  [gen_key_rtt_micro; gen_key_connect_micro; gen_key_send_micro; gen_key_latency_micro; gen_key_receive_micro;
+   gen_key_interval_event_micro; gen_key_request_bytes; gen_key_response_bytes; gen_key_errno; gen_key_proto_code]
+  = [0; 1; 2; 3; 4; 5; 6; 7; 8; 9] /\ gen_fields_num = 10.
+Proof. exact phout_keys_bridge. Qed.
+Print Assumptions C06_keys_bridge.
+
+(* Without a cancel from outside, in every execution of the pool's start/await machinery
+   runCancel() (the aggregator's context) happens only when every launched instance has sent
+   its run result: no Report is made after it (late = 0), so the hypothesis of
+   C06_queue_complete holds for every sample an instance reports. *)
+Theorem C06_engine_order : forall h p, prun false pool_init h = Some p ->
+  late p = 0%nat /\ (run_cancelled p = true -> running p = [] /\ exists n, started p = Some n /\ n = launched p /\ finished p = n).
+Proof. exact engine_order. Qed.
+Print Assumptions C06_engine_order.
+
+(* With a cancel from outside (signal) an instance in flight reports after the aggregator's
+   context is done: such a report is outside C06_queue_complete (see C06_late_report_is_lost). *)
+Theorem C06_external_cancel_late_report : exists h p, prun true pool_init h = Some p /\ late p = 1%nat.
+Proof. exact external_cancel_late_report. Qed.
+Print Assumptions C06_external_cancel_late_report.
+
+(* If the cli waits for the engine's tasks before exiting: in every execution of the process
+   model, an exit that is not forced by the interrupt timeout or a second signal comes after
+   every pool's aggregator has drained, flushed and closed. *)
+Theorem C06_signal_flush_if_cli_waits : forall pools h s r,
+  crun true (proc_init pools) h = Some s -> exited s = Some r -> orderly r = true ->
+  all_true (aggr_closed s) = true.
+Proof. exact signal_flush_waiting. Qed.
+Print Assumptions C06_signal_flush_if_cli_waits.
+
+Example C06_orderly_exit_exists :
+  exists h s, crun true (proc_init 2) h = Some s /\ exited s = Some ExInterrupted /\ all_true (aggr_closed s) = true.
+Proof. exact signal_orderly_exit_exists. Qed.
+
+(* C06_signal_flush, full statement: in every execution of the process model WITH WHAT
+   cli/cli.go DOES NOW (cli_waits is regenerated from the source), an orderly exit comes after
+   every pool's aggregator has closed its destination:
+     forall pools h s r, crun cli_waits (proc_init pools) h = Some s -> exited s = Some r ->
+                         orderly r = true -> all_true (aggr_closed s) = true.
+   It is FALSE of the current tree: after SIGINT/SIGTERM the cli exits as soon as Engine.Run
+   has returned (log.Fatal "Engine interrupted"), without Engine.Wait(). Witness: *)
+Theorem C06_signal_flush_refuted :
+  exists h s, crun cli_waits (proc_init 1) h = Some s /\ exited s = Some ExInterrupted /\ all_true (aggr_closed s) = false.
+Proof. exact signal_flush_not_waiting_refuted. Qed.
+Print Assumptions C06_signal_flush_refuted.
